@@ -35,10 +35,14 @@ type Recorder struct {
 	workers sync.Map // goroutine id -> worker index
 	Empty   unsafe.Pointer
 	Redeems atomic.Int64
+	// out: objects currently borrowed, known only in the validatedebug build (every Get reports a borrow)
+	trackBorrows atomic.Bool
+	out          map[unsafe.Pointer]struct{}
+	Quarantined  atomic.Int64
 }
 
 func NewRecorder() *Recorder {
-	r := &Recorder{ids: map[unsafe.Pointer]int{}}
+	r := &Recorder{ids: map[unsafe.Pointer]int{}, out: map[unsafe.Pointer]struct{}{}}
 	r.mode.Store("plain")
 	return r
 }
@@ -88,6 +92,19 @@ func (r *Recorder) OnRedeem(pool string, obj any) bool {
 		untouched := Poison(obj)
 		touched = !untouched
 	}
+	// A double redeem is recorded like any other redeem (the monitor reports it), but the object is not handed to the pool a
+	// second time: a pool holding the same object twice makes later calls share it, and the process may then crash or hang
+	// before the evidence is written. Quarantining changes nothing before the violation has happened.
+	quarantine := mode == "poison" && !touched && !empty && p != nil
+	if r.trackBorrows.Load() && p != nil && !empty {
+		r.mu.Lock()
+		if _, ok := r.out[p]; ok {
+			delete(r.out, p)
+		} else {
+			quarantine = true
+		}
+		r.mu.Unlock()
+	}
 	if r.record.Load() {
 		t := atomic.AddUint64(&r.ticket, 1)
 		g := r.worker()
@@ -95,11 +112,30 @@ func (r *Recorder) OnRedeem(pool string, obj any) bool {
 		r.events = append(r.events, PoolEvent{Ticket: t, Kind: "R", Pool: pool, Obj: r.idOf(p), G: g, Touched: touched, Empty: empty})
 		r.mu.Unlock()
 	}
+	if quarantine {
+		r.Quarantined.Add(1)
+		return true
+	}
 	return mode == "fresh"
+}
+
+// TrackBorrows switches on exact ownership tracking (validatedebug build only: every Get reports a borrow).
+func (r *Recorder) TrackBorrows(on bool) {
+	r.mu.Lock()
+	r.out = map[unsafe.Pointer]struct{}{}
+	r.mu.Unlock()
+	r.trackBorrows.Store(on)
 }
 
 // OnBorrow is installed as validate.VerifOnBorrow (validatedebug build).
 func (r *Recorder) OnBorrow(pool string, obj any) {
+	if r.trackBorrows.Load() {
+		if p := ptrOf(obj); p != nil {
+			r.mu.Lock()
+			r.out[p] = struct{}{}
+			r.mu.Unlock()
+		}
+	}
 	if !r.record.Load() {
 		return
 	}
